@@ -155,9 +155,41 @@ def _make_td(cls, state):
     return td
 
 
+def _consolidated_is_current(data, consolidated):
+    """Whether the snapshot taken by consolidate() still describes the tensordict.
+
+    The metadata (keys, dtypes, shapes, offsets, non-tensor data, batch-size, names, device, lock state)
+    must be what it would be now, and every leaf must still be the view of the storage at its offset
+    (in-place writes go through the storage; anything else leaves the snapshot behind).
+    """
+    storage = consolidated["storage"]
+    try:
+        metadata, flat_dict, flat_size, _ = data._reduce_vals_and_metadata(
+            requires_metadata=True, dtype=None
+        )
+        if metadata != consolidated["metadata"]:
+            return False
+    except Exception:
+        return False
+    start = storage.storage_offset() * storage.element_size()
+    for (key, value), size in zip(flat_dict.items(), flat_size):
+        if not key[-1].startswith("<NJT>") and (
+            value.untyped_storage().data_ptr() != storage.untyped_storage().data_ptr()
+            or value.storage_offset() * value.element_size() != start
+            or not value.is_contiguous()
+        ):
+            return False
+        start += size
+    return True
+
+
 def _reduce_td(data: TensorDict):
     consolidated = getattr(data, "_consolidated", None)
-    if consolidated and consolidated["metadata"] is not None:
+    if (
+        consolidated
+        and consolidated["metadata"] is not None
+        and _consolidated_is_current(data, consolidated)
+    ):
         storage = consolidated["storage"]
         storge_metadata = consolidated["metadata"]
         return (
@@ -166,11 +198,14 @@ def _reduce_td(data: TensorDict):
         )
 
     # This is faster than the solution below.
+    state = data.__getstate__()
+    # a snapshot that no longer describes the content does not travel with it
+    state.pop("_consolidated", None)
     return (
         _make_td,
         (
             type(data),
-            data.__getstate__(),
+            state,
         ),
     )
     # metadata_dict, flat_key_values, _, _ = data._reduce_vals_and_metadata(
